@@ -636,6 +636,11 @@ func runInBubble(sc *Scenario, events []Event, closure bool, maxConnects int) (o
 		w.exp = make([]*exppeer.Peer, len(sc.Nodes))
 	}
 	synctest.Wait()
+	// All event times are multiples of 5 s after this 1 s offset, the sync manager's 30 s ticker
+	// started at 0: the ticker never fires at the very instant of a peer timer (ping, stall tick)
+	// whose order against it the fake clock would leave to the runtime scheduler.
+	time.Sleep(time.Second)
+	synctest.Wait()
 	for _, e := range events {
 		w.apply(e)
 	}
